@@ -51,6 +51,12 @@ class ScenarioInvalid(Exception):
     """The scenario cannot be materialised (used by the shrinker to reject candidates)."""
 
 
+class CleanArmFailed(Exception):
+    """The fault-free arm of a differential check failed.  Never happens on the unchanged tree; on a modified
+    tree it means a well-formed image is no longer handled, which the driver reports as a violation (class
+    ``clean_arm_failed``) rather than as a harness error or a silent skip."""
+
+
 class HarnessError(Exception):
     """A failure of the machinery itself; never a property violation."""
 
